@@ -353,13 +353,20 @@ ObsFails(C, E, n, m, ls, ln) ==
               frN    == (IF cutrun THEN {"C09.truncated_history_same_fractions"} ELSE {})
                         \cup (IF to # MaxDay /\ from = MinDay THEN {"C09.to_date_run_same_fractions"} ELSE {})
                         \cup (IF windowed THEN {"C10.window_shows_exactly_the_dated_fractions"} ELSE {})
-                        \cup (IF from # MinDay THEN {"C02.date_filter_does_not_change_lot_consumption"} ELSE {})
                         \cup (IF k = m /\ ~windowed THEN {"C17.same_input_same_fractions"} ELSE {})
               f1     == IF SetEq(ln.fr, expFr) THEN {} ELSE frN
               \* under a from-date every disposal shown is still matched to the lots the method prescribes given ALL earlier consumption
               \* (events before the from-date, transfer fees included, have taken their part): same (event, lot) pairs as the unfiltered run
               pairs(S) == {<<x[1], x[2]>> : x \in S}
               f1b    == IF from # MinDay /\ pairs(ToSet(ln.fr)) # pairs(expFr) THEN {"C01.date_filter_does_not_change_lot_choice"} ELSE {}
+              \* ... and a date filter only selects fractions: those shown keep their figures and their term
+              p3(S)  == {<<x[1], x[2], x[3]>> : x \in S}
+              p6(S)  == {<<x[1], x[2], x[3], x[4], x[5], x[6]>> : x \in S}
+              p37(S) == {<<x[1], x[2], x[3], x[7]>> : x \in S}
+              f1c    == IF windowed /\ p3(ToSet(ln.fr)) = p3(expFr)
+                        THEN (IF p6(ToSet(ln.fr)) # p6(expFr) THEN {"C04.date_filter_does_not_change_figures"} ELSE {})
+                             \cup (IF p37(ToSet(ln.fr)) # p37(expFr) THEN {"C05.date_filter_does_not_change_term"} ELSE {})
+                        ELSE (IF from # MinDay THEN {"C02.date_filter_does_not_change_lot_consumption"} ELSE {})     \* (which lot gives how much)
               win(S) == {i \in S : InWin(E[i], from, to)}
               txOK   == /\ SetEq(ln.ins, win({i \in A : E[i].cls = "in"}))
                         /\ SetEq(ln.outs, win({i \in A : E[i].cls = "out"}))
@@ -418,7 +425,7 @@ ObsFails(C, E, n, m, ls, ln) ==
               ownFS  == {[ev |-> g[1], lot |-> g[2], amt |-> g[3], proc |-> g[4], cost |-> g[5], gain |-> g[6], long |-> g[7]] : g \in ToSet(ln.fr)}
               f10    == IF from # MinDay \/ (\E g \in ToSet(ln.fr) : ~(g[1] \in A)) \/ ToSet(ln.yr) = Summary(E, ownFS, 0) THEN {}
                         ELSE {"C06.summary_lines_are_sums_of_the_detail_fractions_shown"}
-              views  == f1 \cup f1b \cup f2 \cup f3 \cup f4 \cup f5 \cup f6 \cup f7 \cup f8 \cup f9 \cup f10
+              views  == f1 \cup f1b \cup f1c \cup f2 \cup f3 \cup f4 \cup f5 \cup f6 \cup f7 \cup f8 \cup f9 \cup f10
           IN f0 \cup w
              \cup (IF to # MaxDay /\ CutAmbiguous(E, A, to)
                    THEN (IF views # {} THEN {"K.C10.D8.to_date_cut_stops_at_first_entry_dated_past_the_bound"} ELSE {"W.C10.mixed_offsets_around_to_date"})
